@@ -408,6 +408,7 @@ func (l *lexer) error(s string) {
 
 // wait waits for the lexer to finish.
 func (l *lexer) wait() {
+	vpoint(l, vJoin)
 	for range l.token {
 	}
 }
